@@ -242,6 +242,35 @@ def run_case(rng, tier, case):
     partial = check_takes(case, spec, r1, ck) if not split else False
     if not split:
         check_takes(case, plus, r2, ck)
+        # the proration holds for EVERY set-up: the same objects set up a second time (a take period partly outside is prorated once, not again)
+        r1b = flow.run_portfolio(spec, built=r1.built, do_optimize=False)
+        if r1b.ok:
+            check_takes(case, spec, r1b, ck)
+        else:
+            case.check('take.second_setup_works', False, error=flow.describe_error(r1b))
+    # (a') "window clipped to the optimisation horizon": stating the part of a window that lies outside the horizon changes nothing - the same
+    # portfolio with every overhanging start / end replaced by the horizon's gives the identical problem (the start of an asset with its own
+    # coarser frequency anchors its coarse steps and is left as it is)
+    if not split:
+        from ..canon import problem_diff
+        gs = ck.points[0]; ge = ck.ts(spec['grid']['end'])
+        clip = copy.deepcopy(spec); changed = []
+        def clip_asset(a):
+            if a.get('start') is not None and ck.ts(a['start']) < gs and not a.get('freq') and a['type'] not in ('ScaledAsset',):
+                a['start'] = None; changed.append(a['name'] + '.start')
+            if a.get('end') is not None and ck.ts(a['end']) > ge and a['type'] not in ('ScaledAsset',):
+                a['end'] = spec['grid']['end']; changed.append(a['name'] + '.end')
+        for a in clip['assets']:
+            if a['type'] in ('StructuredAsset', 'LinkedAsset', 'OrderBook'):
+                continue
+            clip_asset(a)
+        if changed:
+            rc = flow.run_portfolio(clip, do_optimize=False)
+            if not rc.ok:
+                case.check('window.overhang_beyond_horizon_is_irrelevant', False, changed=changed, error=flow.describe_error(rc))
+            else:
+                d = problem_diff(Snap(r1.op), Snap(rc.op), rtol=0., compare_mapping=True)
+                case.check('window.overhang_beyond_horizon_is_irrelevant', d is None, changed=changed, diff=d)
     # (b) problem of P+ restricted to P's variables == problem of P
     s1 = flow.top_setups(r1.rec); s2 = flow.top_setups(r2.rec)
     if len(s1) != len(s2):
